@@ -726,6 +726,13 @@ fn f_refs_big(ks: &[Kind]) -> bool {
         && count(ks, |k| matches!(k, DeferTick | Batch0)) <= 1
 }
 
+fn f_unary(ks: &[Kind]) -> bool {
+    let u = count(ks, |k| matches!(k, Tee1 | Union1));
+    (1..=3).contains(&u)
+        && count(ks, |k| !k.is_base() && !matches!(k, Tee1 | Union1)) <= 1
+        && count(ks, |k| k == Src) >= 1
+}
+
 const MULTI: &[Kind] = &[
     Diff, Union3, Tee3, Union1, Tee1, Part, Unzip, Demux, State, DeferTick, DeferTickLazy, Rfb, Fold,
 ];
@@ -736,6 +743,7 @@ pub fn families(thorough: bool) -> Vec<Family> {
     with_multi.extend_from_slice(MULTI);
     let hoffs = [HoffVec0, HoffVec1, HoffSing0, HoffSing1, HoffOpt0, HoffOpt1];
     let loops_alpha = vec![Src, Sink, Map, Union2, Tee2, Batch0, Batch1, BatchLazy0, AllIter, DeferTick, DeferTickLazy];
+    let unary_alpha = vec![Src, Sink, Map, Join, Tee2, Union2, Tee1, Union1, Part, Diff, HoffVec1, DeferTick, Batch0];
     let fam = |name, alphabet: Vec<Kind>, n_min, n_max, max_refs, filter, cycles| Family {
         name,
         alphabet,
@@ -755,6 +763,7 @@ pub fn families(thorough: bool) -> Vec<Family> {
         v.push(fam("classes45", with_multi.clone(), 4, 5, 0, f_one_special, false));
         v.push(fam("loops", loops_alpha.clone(), 3, 6, 0, f_loops, false));
         v.push(fam("refs", [vec![Src, Sink, Map, Tee2, SrcRef], hoffs.to_vec()].concat(), 2, 4, 2, f_refs, true));
+        v.push(fam("unary", unary_alpha.clone(), 3, 5, 0, f_unary, false));
     } else {
         v.push(fam("cyc-shapes", [base.clone(), vec![DeferTick]].concat(), 1, 5, 0, f_shapes5, true));
         v.push(fam("cyc-classes", with_multi.clone(), 1, 4, 0, f_two_special, true));
@@ -775,6 +784,7 @@ pub fn families(thorough: bool) -> Vec<Family> {
             false,
         ));
         v.push(fam("refs", [vec![Src, Sink, Map, Tee2, Union2, SrcRef], hoffs.to_vec()].concat(), 2, 4, 3, f_refs, true));
+        v.push(fam("unary", unary_alpha.clone(), 3, 6, 0, f_unary, false));
         v.push(fam(
             "refs5",
             [vec![Src, Sink, Map, Tee2, Union2, DeferTick, Batch0, AllIter], vec![HoffSing0, HoffSing1, HoffVec1]].concat(),
